@@ -286,6 +286,13 @@ def run_solve(dev, c, minimize=None):
       S.minimize = lambda **kw: OptimizeResult(x=np.array(kw['x0'], dtype=float), success=True, status=0, message='stub', fun=0.0)
       S.solve(dk.Device('pre', 2, (0, 1)), 0, None, py_opts(c['pre']))
       S.minimize = minimize
+    if minimize is None and int(core.case_hash(tg.tree_to_json(c['t'])), 16) % 4 == 2:
+      # a PREDECESSOR of the device (same ids and shape, without its cumulative and aggregate bounds: last window's model) has been
+      # solved in the same process: nothing solve() keeps between calls may reach this device
+      try:
+        S.solve(tg.build_tree(tg.predecessor(c['t'])), tg.py_price(c['p']))
+      except Exception:
+        pass
     try:
       x, o = S.solve(dev, tg.py_price(c['p']), py_start(c, dev), py_opts(c.get('opts') or {}), None if c['prox'] is None else float(c['prox']))
     except S.OptimizationException:
